@@ -139,7 +139,7 @@ def shrink_devs_case(case, fails, keep_first_command=True):
         al = prog["roots"] if eid is None else prog["events"][eid]
         for i, a in enumerate(al):
             cands = []
-            if a[0] in ("rel", "abs") and a[3] != 5:
+            if a[0] in ("rel", "abs", "pre") and a[3] != 5:
                 cands.append(a[:3] + [5])
             if a[0] == "now" and a[2] != 5:
                 cands.append(a[:2] + [5])
